@@ -21,6 +21,17 @@ pub fn axis(top: f32, n: u32) -> Vec<f32> {
     v
 }
 
+pub fn from_xyb(px: &[[f32; 3]]) -> Result<Vec<[f32; 3]>, String> {
+    let len = px.len();
+    let (w, h) = crate::img::shape_of(len);
+    let xyb = Xyb::new(px.to_vec(), w, h).map_err(|e| format!("{e:?}"))?;
+    let lin = guarded(|| LinearRgb::from(xyb))?;
+    if lin.width() != w || lin.height() != h || lin.data().len() != len {
+        return Err(format!("dims changed to {}x{}", lin.width(), lin.height()));
+    }
+    Ok(lin.data().to_vec())
+}
+
 pub fn to_xyb(px: &[[f32; 3]]) -> Result<Vec<[f32; 3]>, String> {
     let len = px.len();
     let (w, h) = crate::img::shape_of(len);
@@ -86,6 +97,7 @@ pub fn run(tier: Tier) -> Report {
     let acc = par_chunks_varied(total, 1 << 15, |acc, lo, hi| {
         let px: Vec<[f32; 3]> = (lo..hi).map(|i| [a[(i / (al * al)) as usize], a[((i / al) % al) as usize], a[(i % al) as usize]]).collect();
         check_fwd(acc, "cube[0,4]", lo, &px);
+        crate::img::echo_check(acc, lo, "Xyb::from(LinearRgb)", &px, &|p| to_xyb(p), "c04echo", &json!({}));
         crate::img::refine_violations(acc, lo, &px, 1, &|a, it| check_fwd(a, "cube[0,4]", 0, it), &pxs_json);
         if lo == 0 {
             let p = px[px.len() / 2];
@@ -93,6 +105,18 @@ pub fn run(tier: Tier) -> Report {
         }
     });
     rep.acc.merge(acc);
+    for &big in BIG_SIZES.iter() {
+        let px: Vec<[f32; 3]> = (0..big as u64).map(|k| { let i = (k * 7919) % total; [a[(i / (al * al)) as usize], a[((i / al) % al) as usize], a[(i % al) as usize]] }).collect();
+        let mut acc = Acc::default();
+        check_fwd(&mut acc, "large-image", 0, &px);
+        crate::img::refine_violations(&mut acc, 0, &px, 1, &|x, it| check_fwd(x, "large-image", 0, it), &pxs_json);
+        let a1 = axis(1.0, 60);
+        let l1 = a1.len() as u64;
+        let px1: Vec<[f32; 3]> = (0..big as u64).map(|k| { let i = (k * 7919) % (l1 * l1 * l1); [a1[(i / (l1 * l1)) as usize], a1[((i / l1) % l1) as usize], a1[(i % l1) as usize]] }).collect();
+        check_rt(&mut acc, 0, &px1);
+        crate::img::refine_violations(&mut acc, 0, &px1, 1, &|x, it| check_rt(x, 0, it), &pxs_json);
+        rep.acc.merge(acc);
+    }
     // negative stratum on [-1,4]^3
     let steps: u64 = tier.pick(if light() { 40 } else { 80 }, 200);
     let g: Vec<f32> = (0..=steps).map(|i| (-1.0 + 5.0 * i as f64 / steps as f64) as f32).collect();
@@ -138,6 +162,9 @@ pub fn run(tier: Tier) -> Report {
 }
 
 pub fn replay(case: &Value) -> (bool, String) {
+    if case["kind"] == "c04echo" {
+        return crate::img::echo_replay(case, &|p| to_xyb(p));
+    }
     let mut acc = Acc::default();
     let (items, shape) = crate::img::replay_items(case, vec![px3_from(&case["rgb"])], &pxs_from);
     crate::img::with_shape(shape, || check_fwd(&mut acc, "replay", 0, &items));
@@ -207,6 +234,10 @@ pub fn run_c05(tier: Tier) -> Report {
     let acc = par_chunks_varied(total, 1 << 15, |acc, lo, hi| {
         let px: Vec<[f32; 3]> = (lo..hi).map(|i| [a[(i / (al * al)) as usize], a[((i / al) % al) as usize], a[(i % al) as usize]]).collect();
         check_rt(acc, lo, &px);
+        // the inverse alone, on XYB values of in-gamut colours
+        if let Ok(x) = to_xyb(&px[..px.len().min(512)]) {
+            crate::img::echo_check(acc, lo, "LinearRgb::from(Xyb)", &x, &|p| from_xyb(p), "c05echo", &json!({}));
+        }
         crate::img::refine_violations(acc, lo, &px, 1, &|a, it| check_rt(a, 0, it), &pxs_json);
         if lo == 0 {
             acc.sample(json!({"rgb": px3s(px[px.len()/3]), "note": "LinearRgb -> Xyb -> LinearRgb"}));
@@ -220,6 +251,9 @@ pub fn run_c05(tier: Tier) -> Report {
 }
 
 pub fn replay_c05(case: &Value) -> (bool, String) {
+    if case["kind"] == "c05echo" {
+        return crate::img::echo_replay(case, &|p| from_xyb(p));
+    }
     let mut acc = Acc::default();
     let (items, shape) = crate::img::replay_items(case, vec![px3_from(&case["rgb"])], &pxs_from);
     crate::img::with_shape(shape, || check_rt(&mut acc, 0, &items));
